@@ -1,1 +1,176 @@
-(* placeholder: to be written *)
+(** C13 — Safe price is the exact time-weighted average of start-of-round reserves.
+
+    Vocabulary (Model/SafePrice.v, Proofs/SafePriceProofs.v):
+      [us]                 every call of update_safe_price ever made on the pair, oldest first: block round
+                           and the (first reserve, second reserve, LP supply) it was given — by
+                           [sp_step] these are the reserves BEFORE the operation that makes the call;
+      [wf_calls us]        rounds never decrease along [us]; amounts are non-negative (BigUint);
+      [eff us]             the calls that record an observation; [observations us] what they record;
+      [ring_of N us]       price_observations + safe_price_current_index for capacity [N];
+      [start us c t]       reserves in effect at the start of round [t]: those given to the first call
+                           (with all three non-zero) made in a round >= t, and the present reserves [c]
+                           if no call was made since;
+      [sumr f a b]         f (a+1) + ... + f b;
+      [acc g us c x]       g (first recording call) + sum over rounds (first recorded round, x] of g (start t);
+      [avg g us c s e]     floor (sum over rounds (s, e] of g (start t)  /  (e - s)).
+    Every theorem holds for EVERY ring capacity N >= 2; [C13_capacity] instantiates it with the
+    constant of the source.  Search focus (framework.py, broken-proof search): windows whose ends are
+    recorded / interpolated / extrapolated rounds on partial, exactly full and wrapped rings. *)
+From MX Require Import Base.Prelude Gen.Params Model.Pair Model.SafePrice Proofs.PairInv Proofs.SafePriceProofs.
+
+Theorem C13_capacity : 2 <= MAX_OBSERVATIONS.
+Proof. exact max_obs_ge2. Qed.
+Print Assumptions C13_capacity.
+
+(** What gets recorded.  The contract's storage after any sequence of calls is [ring_of N us]; at most
+    one observation per round (rounds strictly increase), none at round 0, none with a zero reserve;
+    the call that records is the first initialised call of its round, so what it saw are the
+    start-of-round reserves; the j-th recorded observation carries the closed-form prefix sums
+    [acc] and weight 1 + (its round - first recorded round). *)
+Theorem C13_update : forall N, 2 <= N -> forall us c, wf_calls us ->
+  run_updates N ring0 us = Ok (ring_of N us) /\
+  strict_from 0 (eff us) /\
+  Forall pos_upd (eff us) /\
+  (forall u, In u (eff us) -> In u us /\ start us c (u_round u) = u) /\
+  length (observations us) = length (eff us) /\
+  (forall j, (j < length (eff us))%nat ->
+     nth j (observations us) obs0 = acc_obs us c (u_round (nth j (eff us) u0))).
+Proof. exact update_spec. Qed.
+Print Assumptions C13_update.
+
+(** Ring contents: of k recorded observations the last min(k, N) survive; observation number j
+    (1-based) is stored at index ((j-1) mod N)+1, the newest at safe_price_current_index; rounds
+    strictly increase with j, i.e. along the cyclic order starting at the oldest slot. *)
+Theorem C13_ring : forall N, 2 <= N -> forall l, 0 < vlen l ->
+  vlen (rg_obs (layout N l)) = Z.min (vlen l) N /\
+  rg_cur (layout N l) = (vlen l - 1) mod N + 1 /\
+  (forall j, vlen l - Z.min (vlen l) N < j <= vlen l ->
+     vget (rg_obs (layout N l)) ((j - 1) mod N + 1) = Ok (nth (Z.to_nat (j - 1)) l obs0)).
+Proof. exact ring_spec. Qed.
+Print Assumptions C13_ring.
+
+Theorem C13_ring_sorted : forall us, wf_calls us -> sorted_obs (observations us).
+Proof. exact observations_sorted. Qed.
+Print Assumptions C13_ring_sorted.
+
+(** Binary search (fuel N, every index inside 1..len, no usize underflow: the result is [Ok]): for a
+    round x between the oldest retained and the newest observation it returns the observation
+    recorded at x, or the default observation together with an index such that the slot at the index
+    and the slot the interpolation reads next hold the two consecutive observations enclosing x. *)
+Theorem C13_search : forall N, 2 <= N -> forall l x, sorted_obs l -> 0 < vlen l ->
+  ob_round (nth (Z.to_nat (Z.max 0 (vlen l - N))) l obs0) <= x -> x < ob_round (last l obs0) ->
+  let rg := layout N l in
+  exists po idx, bsearch N rg x = Ok (po, idx) /\ 1 <= idx <= vlen (rg_obs rg) /\
+    ((vget (rg_obs rg) idx = Ok po /\ ob_round po = x) \/
+     (po = obs0 /\ encloses N l (rg_obs rg) x idx)).
+Proof. exact search_spec. Qed.
+Print Assumptions C13_search.
+
+(** Lookup: for every round x from the oldest retained observation up to the current round,
+    get_price_observation returns exactly the prefix sums up to x — whether x is the newest recorded
+    round, a recorded one found by the search, lies between two observations (the interpolation's
+    division is exact) or after the newest one (extrapolation with the present reserves). *)
+Theorem C13_lookup : forall N, 2 <= N -> forall us ev o x, wf_calls us ->
+  (forall u, In u us -> u_round u <= e_now ev) ->
+  get_oldest N (ring_of N us) = Ok o -> ob_round o <= x -> x <= e_now ev ->
+  get_price_observation N (ring_of N us) ev x = Ok (acc_obs us (cur_upd ev) x).
+Proof. exact lookup_spec. Qed.
+Print Assumptions C13_lookup.
+
+(** The safe price over (s, e]: amount * floor(avg of the other reserve) / floor(avg of the input
+    token's reserve), floors as documented; both averages are >= 1 ([C13_average]). *)
+Theorem C13_query : forall N, 2 <= N -> forall us ev o s e tok amt, wf_calls us ->
+  (forall u, In u us -> u_round u <= e_now ev) -> pos_upd (cur_upd ev) ->
+  get_oldest N (ring_of N us) = Ok o -> ob_round o <= s -> s < e -> e <= e_now ev ->
+  get_safe_price N (ring_of N us) ev s e tok amt =
+    let c := cur_upd ev in
+    if tok =? T1 then Ok (T2, amt * avg u_r2 us c s e / avg u_r1 us c s e)
+    else if tok =? T2 then Ok (T1, amt * avg u_r1 us c s e / avg u_r2 us c s e)
+    else Err EGuard.
+Proof. exact price_spec. Qed.
+Print Assumptions C13_query.
+
+(** LP variant: liquidity * floor(avg reserve) / floor(avg LP supply) for both tokens; the
+    current-supply fallback of the code is never taken on observations recorded by this code. *)
+Theorem C13_query_lp : forall N, 2 <= N -> forall us ev o s e liq, wf_calls us ->
+  (forall u, In u us -> u_round u <= e_now ev) -> pos_upd (cur_upd ev) ->
+  get_oldest N (ring_of N us) = Ok o -> ob_round o <= s -> s < e -> e <= e_now ev ->
+  get_lp_safe_price N (ring_of N us) ev s e liq =
+    let c := cur_upd ev in
+    Ok (liq * avg u_r1 us c s e / avg u_S us c s e, liq * avg u_r2 us c s e / avg u_S us c s e).
+Proof. exact lp_price_spec. Qed.
+Print Assumptions C13_query_lp.
+
+(** [avg] is the floor of the window sum over the window length (cross-multiplied) and at least 1 *)
+Theorem C13_average : forall g us c s e, wf_calls us -> pos_upd c ->
+  (forall u, pos_upd u -> 1 <= g u) -> 0 <= s -> s < e ->
+  1 <= avg g us c s e /\
+  avg g us c s e * (e - s) <= sumr (fun t => g (start us c t)) s e < avg g us c s e * (e - s) + (e - s).
+Proof. exact avg_bounds. Qed.
+Print Assumptions C13_average.
+
+(** Rejections: s >= e, e in the future, nothing recorded yet, s before the oldest retained observation *)
+Theorem C13_reject : forall N, 2 <= N -> forall us ev s e tok amt liq, wf_calls us ->
+  (forall u, In u us -> u_round u <= e_now ev) -> 0 <= e_now ev ->
+  (e <= s \/ e_now ev < e \/ eff us = [] \/
+   (exists o, get_oldest N (ring_of N us) = Ok o /\ s < ob_round o)) ->
+  is_ok (get_safe_price N (ring_of N us) ev s e tok amt) = false /\
+  is_ok (get_lp_safe_price N (ring_of N us) ev s e liq) = false.
+Proof. exact reject_spec. Qed.
+Print Assumptions C13_reject.
+
+Theorem C13_reject_observation : forall N, 2 <= N -> forall us ev x, wf_calls us ->
+  (forall u, In u us -> u_round u <= e_now ev) -> 0 <= e_now ev ->
+  (e_now ev < x \/ eff us = [] \/ (exists o, get_oldest N (ring_of N us) = Ok o /\ x < ob_round o)) ->
+  is_ok (view_observation N (ring_of N us) ev x) = false.
+Proof. exact reject_observation. Qed.
+Print Assumptions C13_reject_observation.
+
+(** The ...ByRoundOffset / ...ByDefaultOffset entry points only choose the window *)
+Theorem C13_offsets : forall N rg ev,
+  (forall off s, offset_start ev off = Ok s <-> (0 < off < e_now ev /\ s = e_now ev - off)) /\
+  (forall o, get_oldest N rg = Ok o -> ob_round o <= e_now ev ->
+     default_start N rg ev = Ok (e_now ev - Z.min DEFAULT_SAFE_PRICE_ROUNDS_OFFSET (e_now ev - ob_round o))).
+Proof. exact offsets_spec. Qed.
+Print Assumptions C13_offsets.
+
+(** Composition with the pool model: along any run of pool operations with non-decreasing rounds the
+    ring is fed exactly the calls [calls_of] (pre-operation reserves of the successful
+    reserve-changing operations), and whenever the pool is initialised at the start of round t, the
+    reserves it then holds are [start (calls_of ...) (final reserves) t] — so [start] above IS the
+    start-of-round reserve of the property, however many operations share a round. *)
+Theorem C13_pool_feeds_ring : forall N ops w,
+  run_updates N (sw_ring w) (calls_of N w ops) = Ok (sw_ring (sp_run N w ops)).
+Proof. exact sp_run_ring. Qed.
+Print Assumptions C13_pool_feeds_ring.
+
+Theorem C13_start_of_round : forall N ops w t lr, WorldInv (sw_w w) -> rounds_from lr ops ->
+  let wt := sp_run N w (before t ops) in
+  let wf := sp_run N w ops in
+  0 < p_S (w_p (sw_w wt)) ->
+  same_res (start (calls_of N w ops) (upd_of 0 (w_p (sw_w wf))) t) (w_p (sw_w wt)).
+Proof. exact start_of_round. Qed.
+Print Assumptions C13_start_of_round.
+
+(** a wrapped ring (capacity 3, five observations, two calls in one round), queried across the wrap
+    point with interpolated start and extrapolated end *)
+Example C13_nonvacuous :
+  let us := [mkU 5 1000 3000 1000; mkU 5 1100 2800 1000; mkU 9 1100 2800 1000; mkU 20 900 3400 1000;
+             mkU 21 950 3300 1200; mkU 40 700 900 1200] in
+  let ev := mkEnv 50 1000 650 1300 in
+  wf_calls us /\ (forall u, In u us -> u_round u <= e_now ev) /\ pos_upd (cur_upd ev) /\
+  match run_updates 3 ring0 us with
+  | Ok rg => rg = ring_of 3 us /\ rg_cur rg = 2 /\ vlen (rg_obs rg) = 3 /\
+      match get_oldest 3 rg with Ok o => ob_round o = 20 | Err _ => False end /\
+      get_price_observation 3 rg ev 30 = Ok (mkO 22550 63000 26 30 28000) /\
+      get_safe_price 3 rg ev 30 45 T1 1000 = Ok (T2, 1020) /\
+      get_lp_safe_price 3 rg ev 30 45 1200 = Ok (778, 794) /\
+      is_ok (get_safe_price 3 rg ev 19 45 T1 1000) = false /\
+      is_ok (get_safe_price 3 rg ev 30 51 T1 1000) = false
+  | Err _ => False
+  end.
+Proof.
+  vm_compute. repeat split; try discriminate; try lia;
+    try (repeat constructor; discriminate).
+  intros u [<-|[<-|[<-|[<-|[<-|[<-|[]]]]]]]; discriminate.
+Qed.
